@@ -225,7 +225,10 @@ def run_check(prop, tier):
                         scn, used = shrinker.shrink(scn, rule, lambda s: executor_of(mod)(s, None),
                                                     budget=getattr(mod, "SHRINK_BUDGET", 500),
                                                     extra_candidates=getattr(mod, "shrink_candidates", None))
-                        viol = executor_of(mod)(copy.deepcopy(scn), None)["violation"]
+                        again = executor_of(mod)(copy.deepcopy(scn), None).get("violation")
+                        if again and again["rule"] == rule:
+                            viol = again
+                        # (else: the defect depends on process history; the fresh-interpreter replay below decides)
                     else:
                         harness.append("in-process replay of %s/%d did not reproduce %s (got %s)" % (
                             v["family"], v["idx"], rule, chk.get("violation")))
